@@ -183,7 +183,8 @@ func main() {
 		}
 		p.WriteToDisk()
 		if err := p.Analyze(); err != nil {
-			o.Harness = append(o.Harness, fmt.Sprintf("%s: %v", name, err))
+			o.Skipped = append(o.Skipped, fmt.Sprintf("%s: analyzer failed (not a C07/C17 matter, see C03): %v", name, err))
+			o.Stats["analyzer_failed"]++
 			continue
 		}
 		o.Stats["generated"]++
@@ -210,7 +211,8 @@ func main() {
 			o.Skipped = append(o.Skipped, skipped...)
 			for _, p := range pkgs {
 				if err := p.Analyze(); err != nil {
-					o.Harness = append(o.Harness, fmt.Sprintf("%s: %v", p.Name, err))
+					o.Skipped = append(o.Skipped, fmt.Sprintf("%s: analyzer failed (not a C07/C17 matter, see C03): %v", p.Name, err))
+					o.Stats["analyzer_failed"]++
 					continue
 				}
 				if len(p.Nodes) > *maxNodes {
